@@ -2,14 +2,21 @@ import Gql.Proofs.ValidationOrder
 import Gql.Proofs.ValidationMemo
 import Gql.Generated.ValidationTables
 import Gql.Proofs.RuleReturnsFacts
+import Gql.Proofs.RulesSpec2
+import Gql.Proofs.RulesFuel
+import Gql.Proofs.RulesLone
+import Gql.Proofs.RulesUniqueOps
+import Gql.Proofs.RulesUniqueFrags
 /-!
 # C12 — Validation is a deterministic, compositional function of document and schema
 
 Property theorems only (lemmas: `Gql/Proofs/Validation*.lean`).  Model: `Gql/Validation/Framework.lean`
 (`validate` = `visit(doc, TypeInfoVisitor(TypeInfo, ParallelVisitor(rules)))` with `on_error` and the error
 limit; rules are arbitrary state-passing non-editing visitors that may read the TypeInfo) and
-`Gql/Validation/Context.lean` (the memoised context getters).  The ~40 concrete rules are not modelled;
-`checks/c12.py` checks on the implementation that they behave as such visitors.
+`Gql/Validation/Context.lean` (the memoised context getters).  Eleven document-only concrete rules are modelled as
+such visitors in `Gql/Validation/Rules.lean` (section C12-7 below; each is run alone through the real `validate()`
+against the model by `checks/c12.py`); for the other rules `checks/c12.py` checks on the implementation that they
+behave as such visitors.
 
 All statements are for every tree, every list of rules (any private state type `σ`, any error type `ε`), every
 lookup functions `L` and — where the TypeInfo table matters — every balanced table, instantiated with the
@@ -353,6 +360,258 @@ theorem filter_only_description :
 /-- The ordered rule lists (names) the check iterates over; `specified_rules` ends with the recommended rule. -/
 theorem rule_lists : specifiedRules ≠ [] ∧ specifiedSdlRules ≠ [] ∧ specifiedRules.Nodup ∧
     specifiedSdlRules.Nodup ∧ recommendedRules.all (fun r => specifiedRules.contains r) = true := by decide
+
+/-! ## C12-7 the modelled concrete rules (`Gql/Validation/Rules.lean`)
+
+LoneAnonymousOperation, UniqueOperationNames, UniqueFragmentNames, UniqueVariableNames, UniqueArgumentNames,
+UniqueInputFieldNames, KnownFragmentNames, NoUnusedFragments, NoFragmentCycles, NoUndefinedVariables,
+NoUnusedVariables are *values of the rule type the theorems above quantify over* (`Rule τ RS RErr`, private state
+`RS`, reading the document through the closure), so every framework theorem applies to them as it stands. -/
+
+section Modelled
+open Gql.Validation.Rules
+
+/-- C12-7 (non-editing).  Every handler of every modelled rule answers `None` or `SKIP` — never BREAK; the
+`Action` type has no edit, so "never edits" is by construction. -/
+theorem modelled_rules_never_edit (doc : ATree) (r : CRule τ) (hr : r ∈ modelledRules doc)
+    (s : RS) (ph : Phase) (i : Info) (ti : TI τ) :
+    (r.step s ph i ti).1 = Action.idle ∨ (r.step s ph i ti).1 = Action.skip := by
+  have h := modelled_nb doc r hr s ph i ti
+  cases hx : (r.step s ph i ti).1 with
+  | idle => exact Or.inl rfl
+  | skip => exact Or.inr rfl
+  | brk => exact absurd hx h
+
+/-- C12-7 `modelled_rules_compositional`.  For any list `rs` of modelled rules (any sub-list of the eleven, any
+order, repetitions allowed), each started from its `__init__` state, on any tree: (1) what `validate(rs)` returns is,
+as a multiset, the union of the single-rule runs; (2) every single-rule run is a subsequence of it (errors in
+traversal order, ties in rule order); (3) every rule's member record (state, calls, errors) is the one of its single
+run; (4) `validate(max_errors = n)` is the `n`-prefix law of the unlimited run. -/
+theorem modelled_rules_compositional (tbl : TITable) (L : Lookups τ) (doc : ATree) (rs : List (CRule τ))
+    (hrs : ∀ r ∈ rs, r ∈ modelledRules doc) (t : Tree) :
+    (∀ r ∈ rs, NeverBreaks r) ∧
+    (validate tbl L none (rs.map (fun r => (r, RS.init))) t).Perm
+      ((rs.map (fun r => (r, RS.init))).flatMap (fun r => validate tbl L none [r] t)) ∧
+    (∀ r ∈ rs, (validate tbl L none [(r, RS.init)] t).Sublist (validate tbl L none (rs.map (fun r => (r, RS.init))) t)) ∧
+    (validateRun tbl L none (rs.map (fun r => (r, RS.init))) t).1.2.members =
+      (rs.map (fun r => (r, RS.init))).flatMap (fun r => (validateRun tbl L none [r] t).1.2.members) ∧
+    (∀ n, validate tbl L (some n) (rs.map (fun r => (r, RS.init))) t =
+      if n < (validate tbl L none (rs.map (fun r => (r, RS.init))) t).length
+      then (validate tbl L none (rs.map (fun r => (r, RS.init))) t).take n ++ [Reported.aborted]
+      else validate tbl L none (rs.map (fun r => (r, RS.init))) t) :=
+  ⟨fun r hr => modelled_nb doc r (hrs r hr),
+   rules_union tbl L _ t,
+   fun r hr => rules_order_full tbl L _ t (r, RS.init) (List.mem_map_of_mem (f := fun r => (r, RS.init)) hr),
+   parallel_alone tbl L _ t,
+   fun n => limit_prefix tbl L n _ t⟩
+
+-- non-vacuity: `{ ...A }  fragment B on T { ...B }` — an unknown fragment, an unused fragment, a self-cycle
+private def exADoc : ATree :=
+  .node ⟨0, "document"⟩ "" "" [
+    .node ⟨1, "operation_definition"⟩ "definitions" "" [
+      .node ⟨2, "selection_set"⟩ "selection_set" "" [
+        .node ⟨3, "fragment_spread"⟩ "selections" "" [.node ⟨4, "name"⟩ "name" "A" []]]],
+    .node ⟨5, "fragment_definition"⟩ "definitions" "" [
+      .node ⟨6, "name"⟩ "name" "B" [],
+      .node ⟨7, "selection_set"⟩ "selection_set" "" [
+        .node ⟨8, "fragment_spread"⟩ "selections" "" [.node ⟨9, "name"⟩ "name" "B" []]]]]
+
+example : validate tiTable exL none ((modelledRules exADoc).map (fun r => (r, RS.init))) exADoc.erase =
+    [.error ⟨"KnownFragmentNamesRule", "A", [4]⟩, .error ⟨"NoFragmentCyclesRule", "B", [8]⟩,
+     .error ⟨"NoUnusedFragmentsRule", "B", [5]⟩] := by decide +kernel
+
+/-- C12-7 `rule_iff_spec`, KnownFragmentNames.  On a document whose nodes are distinct objects, `validate([KnownFragmentNamesRule])`
+reports nothing iff every fragment spread (anywhere in the document, also inside fragments that are never used and
+inside skipped directives' neighbours) has a name, and that name is the name of a fragment definition of the
+document.  (`uniqueIds`: Python object identity; checked on every encoded document by the driver, `|u 1`.) -/
+theorem knownFragmentNames_iff_spec (tbl : TITable) (L : Lookups τ) (doc : ATree) (hu : doc.uniqueIds) :
+    validate tbl L none [(knownFragmentNames doc, RS.init)] doc.erase = [] ↔ Spec.knownFragmentNames doc :=
+  knownFragmentNames_iff tbl L doc hu
+
+example : exADoc.uniqueIds ∧ ¬ Spec.knownFragmentNames exADoc := by
+  refine ⟨by unfold ATree.uniqueIds; decide +kernel, ?_⟩
+  intro h
+  have := (knownFragmentNames_iff_spec tiTable exL exADoc (by unfold ATree.uniqueIds; decide +kernel)).mpr h
+  exact absurd this (by decide +kernel)
+
+-- `query Q($a: Int, $a: Int) { f(x: 1, x: 2) }`: duplicate variable, duplicate argument, unused variable
+private def exBDoc : ATree :=
+  .node ⟨0, "document"⟩ "" "" [
+    .node ⟨1, "operation_definition"⟩ "definitions" "" [
+      .node ⟨2, "name"⟩ "name" "Q" [],
+      .node ⟨3, "variable_definition"⟩ "variable_definitions" "" [
+        .node ⟨4, "variable"⟩ "variable" "" [.node ⟨5, "name"⟩ "name" "a" []], .node ⟨6, "named_type"⟩ "type" "" [.node ⟨7, "name"⟩ "name" "Int" []]],
+      .node ⟨8, "variable_definition"⟩ "variable_definitions" "" [
+        .node ⟨9, "variable"⟩ "variable" "" [.node ⟨10, "name"⟩ "name" "a" []], .node ⟨11, "named_type"⟩ "type" "" [.node ⟨12, "name"⟩ "name" "Int" []]],
+      .node ⟨13, "selection_set"⟩ "selection_set" "" [
+        .node ⟨14, "field"⟩ "selections" "" [
+          .node ⟨15, "name"⟩ "name" "f" [],
+          .node ⟨16, "argument"⟩ "arguments" "" [.node ⟨17, "name"⟩ "name" "x" [], .node ⟨18, "int_value"⟩ "value" "" []],
+          .node ⟨19, "argument"⟩ "arguments" "" [.node ⟨20, "name"⟩ "name" "x" [], .node ⟨21, "int_value"⟩ "value" "" []]]]]]
+
+-- `query Q($a: Int) { f(x: $a) ...B }  fragment B on T { g }`: nothing to report
+private def exCDoc : ATree :=
+  .node ⟨0, "document"⟩ "" "" [
+    .node ⟨1, "operation_definition"⟩ "definitions" "" [
+      .node ⟨2, "name"⟩ "name" "Q" [],
+      .node ⟨3, "variable_definition"⟩ "variable_definitions" "" [
+        .node ⟨4, "variable"⟩ "variable" "" [.node ⟨5, "name"⟩ "name" "a" []], .node ⟨6, "named_type"⟩ "type" "" [.node ⟨7, "name"⟩ "name" "Int" []]],
+      .node ⟨8, "selection_set"⟩ "selection_set" "" [
+        .node ⟨9, "field"⟩ "selections" "" [
+          .node ⟨10, "name"⟩ "name" "f" [],
+          .node ⟨11, "argument"⟩ "arguments" "" [.node ⟨12, "name"⟩ "name" "x" [], .node ⟨13, "variable"⟩ "value" "" [.node ⟨14, "name"⟩ "name" "a" []]]],
+        .node ⟨15, "fragment_spread"⟩ "selections" "" [.node ⟨16, "name"⟩ "name" "B" []]]],
+    .node ⟨17, "fragment_definition"⟩ "definitions" "" [
+      .node ⟨18, "name"⟩ "name" "B" [],
+      .node ⟨19, "named_type"⟩ "type_condition" "" [.node ⟨20, "name"⟩ "name" "T" []],
+      .node ⟨21, "selection_set"⟩ "selection_set" "" [.node ⟨22, "field"⟩ "selections" "" [.node ⟨23, "name"⟩ "name" "g" []]]]]
+
+example : validate tiTable exL none ((modelledRules exBDoc).map (fun r => (r, RS.init))) exBDoc.erase =
+    [.error ⟨"UniqueVariableNamesRule", "a", [5, 10]⟩, .error ⟨"UniqueArgumentNamesRule", "x", [17, 20]⟩,
+     .error ⟨"NoUnusedVariablesRule", "a", [3]⟩, .error ⟨"NoUnusedVariablesRule", "a", [8]⟩] := by decide +kernel
+
+example : validate tiTable exL none ((modelledRules exCDoc).map (fun r => (r, RS.init))) exCDoc.erase = [] := by
+  decide +kernel
+
+set_option linter.defProp false in
+private def exB_unique : exBDoc.uniqueIds := by unfold ATree.uniqueIds; decide +kernel
+set_option linter.defProp false in
+private def exC_unique : exCDoc.uniqueIds := by unfold ATree.uniqueIds; decide +kernel
+
+-- the predicate holds of a document with spreads, and fails where the rule reports
+example : Spec.knownFragmentNames exCDoc :=
+  (knownFragmentNames_iff_spec tiTable exL exCDoc exC_unique).mp (by decide +kernel)
+
+/-- C12-7 `rule_iff_spec`, UniqueArgumentNames: `validate([UniqueArgumentNamesRule])` reports nothing iff in every
+field and every directive of the document (wherever it occurs) every argument has a name and the names are pairwise
+distinct. -/
+theorem uniqueArgumentNames_iff_spec (tbl : TITable) (L : Lookups τ) (doc : ATree) (hu : doc.uniqueIds) :
+    validate tbl L none [(uniqueArgumentNames doc, RS.init)] doc.erase = [] ↔ Spec.uniqueArgumentNames doc :=
+  uniqueArgumentNames_iff tbl L doc hu
+
+/-- C12-7 `rule_iff_spec`, UniqueVariableNames: `validate([UniqueVariableNamesRule])` reports nothing iff in every
+operation the defined variables have names and these are pairwise distinct. -/
+theorem uniqueVariableNames_iff_spec (tbl : TITable) (L : Lookups τ) (doc : ATree) (hu : doc.uniqueIds) :
+    validate tbl L none [(uniqueVariableNames doc, RS.init)] doc.erase = [] ↔ Spec.uniqueVariableNames doc :=
+  uniqueVariableNames_iff tbl L doc hu
+
+/-- C12-7 `rule_iff_spec`, NoUnusedVariables (partial: the predicate is stated through the context getters).
+`validate([NoUnusedVariablesRule])` reports nothing iff every variable an operation defines occurs among the names
+of `get_recursive_variable_usages(operation)` that are not fragment variables, and every variable a fragment
+definition defines occurs among the names of `get_variable_usages(fragment)`.  Missing for a fully declarative
+statement: a characterisation of the getters (`getRecFrags` = reachability in the spread graph). -/
+theorem noUnusedVariables_iff_spec_partial (tbl : TITable) (L : Lookups τ) (doc : ATree) (hu : doc.uniqueIds) :
+    validate tbl L none [(noUnusedVariables doc, RS.init)] doc.erase = [] ↔ Spec.noUnusedVariables doc :=
+  noUnusedVariables_iff tbl L doc hu
+
+example : Spec.uniqueArgumentNames exCDoc ∧ Spec.uniqueVariableNames exCDoc ∧ Spec.noUnusedVariables exCDoc :=
+  ⟨(uniqueArgumentNames_iff_spec tiTable exL exCDoc exC_unique).mp (by decide +kernel),
+   (uniqueVariableNames_iff_spec tiTable exL exCDoc exC_unique).mp (by decide +kernel),
+   (noUnusedVariables_iff_spec_partial tiTable exL exCDoc exC_unique).mp (by decide +kernel)⟩
+
+example : ¬ Spec.uniqueArgumentNames exBDoc ∧ ¬ Spec.uniqueVariableNames exBDoc ∧ ¬ Spec.noUnusedVariables exBDoc :=
+  ⟨fun h => absurd ((uniqueArgumentNames_iff_spec tiTable exL exBDoc exB_unique).mpr h) (by decide +kernel),
+   fun h => absurd ((uniqueVariableNames_iff_spec tiTable exL exBDoc exB_unique).mpr h) (by decide +kernel),
+   fun h => absurd ((noUnusedVariables_iff_spec_partial tiTable exL exBDoc exB_unique).mpr h) (by decide +kernel)⟩
+
+/-- C12-7 (termination, partial).  The worklist loop of `context.get_fragment_spreads` terminates on every selection
+set: the model's fuel (the number of nodes below the selection set) is never exhausted.  Missing: the same for the
+loops of `get_recursively_referenced_fragments` and `detect_cycle_recursive` (fuel = number of fragment definitions
++ 1 resp. + 2; exhaustion would surface as a `<fuel>` error / a truncated list in the correspondence runs). -/
+theorem fragment_spreads_terminates_partial (selSet : ATree) : (getSpreads selSet).2 = false :=
+  spreads_fuel_enough selSet
+
+example : (getSpreads (.node ⟨0, "selection_set"⟩ "" "" [
+    .node ⟨1, "field"⟩ "selections" "" [.node ⟨2, "selection_set"⟩ "selection_set" "" [.node ⟨3, "fragment_spread"⟩ "selections" "" []]],
+    .node ⟨4, "fragment_spread"⟩ "selections" "" []])).1.map (·.id) = [4, 3] := by decide +kernel
+
+/-- C12-7 `rule_iff_spec`, LoneAnonymousOperation (a rule with private state: `operation_count` is set at the
+document node and read at every operation).  On a document — root of kind `document`, no other node of that kind,
+nodes distinct objects; all guaranteed by the parser and decidable — `validate([LoneAnonymousOperationRule])` reports
+nothing iff: if the document defines more than one operation, then every operation definition has a name. -/
+theorem loneAnonymousOperation_iff_spec (tbl : TITable) (L : Lookups τ) (doc : ATree) (hk : doc.kind = "document")
+    (hu : doc.uniqueIds) (hnd : ∀ n ∈ ATree.nodesList doc.children, n.kind ≠ "document") :
+    validate tbl L none [(loneAnonymousOperation doc, RS.init)] doc.erase = [] ↔ Spec.loneAnonymousOperation doc := by
+  cases doc with
+  | node i f v cs => exact loneAnonymousOperation_iff tbl L i f v cs (by simpa [ATree.kind, ATree.info] using hk) hu hnd
+
+-- `{ a }  query Q { b }`
+private def exDDoc : ATree :=
+  .node ⟨0, "document"⟩ "" "" [
+    .node ⟨1, "operation_definition"⟩ "definitions" "" [
+      .node ⟨2, "selection_set"⟩ "selection_set" "" [.node ⟨3, "field"⟩ "selections" "" [.node ⟨4, "name"⟩ "name" "a" []]]],
+    .node ⟨5, "operation_definition"⟩ "definitions" "" [
+      .node ⟨6, "name"⟩ "name" "Q" [],
+      .node ⟨7, "selection_set"⟩ "selection_set" "" [.node ⟨8, "field"⟩ "selections" "" [.node ⟨9, "name"⟩ "name" "b" []]]]]
+
+example : validate tiTable exL none [(loneAnonymousOperation exDDoc, RS.init)] exDDoc.erase =
+    [.error ⟨"LoneAnonymousOperationRule", "", [1]⟩] := by decide +kernel
+
+example : ¬ Spec.loneAnonymousOperation exDDoc ∧ Spec.loneAnonymousOperation exCDoc :=
+  ⟨fun h => absurd ((loneAnonymousOperation_iff_spec tiTable exL exDDoc (by decide +kernel)
+      (by unfold ATree.uniqueIds; decide +kernel) (by decide +kernel)).mpr h) (by decide +kernel),
+   (loneAnonymousOperation_iff_spec tiTable exL exCDoc (by decide +kernel) exC_unique (by decide +kernel)).mp (by decide +kernel)⟩
+
+/-- C12-7 `rule_iff_spec`, UniqueOperationNames (a rule with private state that answers SKIP at every operation and
+fragment definition; the proof goes through `ParallelVisitor`'s `skipping` entry being set to the definition node,
+its subtree being ignored, and the entry being reset when the node is left).  On a document whose nodes are distinct
+objects, `validate([UniqueOperationNamesRule])` reports nothing iff the names of the named operation definitions
+(`outer doc`: the operation / fragment definitions not nested in another one — for a parsed document,
+`document.definitions`) are pairwise distinct. -/
+theorem uniqueOperationNames_iff_spec (tbl : TITable) (L : Lookups τ) (doc : ATree) (hu : doc.uniqueIds) :
+    validate tbl L none [(uniqueOperationNames doc, RS.init)] doc.erase = [] ↔ Spec.uniqueOperationNames doc :=
+  uniqueOperationNames_iff tbl L doc hu
+
+-- `query Q { a }  query Q { b }`
+private def exEDoc : ATree :=
+  .node ⟨0, "document"⟩ "" "" [
+    .node ⟨1, "operation_definition"⟩ "definitions" "" [
+      .node ⟨2, "name"⟩ "name" "Q" [],
+      .node ⟨3, "selection_set"⟩ "selection_set" "" [.node ⟨4, "field"⟩ "selections" "" [.node ⟨5, "name"⟩ "name" "a" []]]],
+    .node ⟨6, "operation_definition"⟩ "definitions" "" [
+      .node ⟨7, "name"⟩ "name" "Q" [],
+      .node ⟨8, "selection_set"⟩ "selection_set" "" [.node ⟨9, "field"⟩ "selections" "" [.node ⟨10, "name"⟩ "name" "b" []]]]]
+
+example : validate tiTable exL none [(uniqueOperationNames exEDoc, RS.init)] exEDoc.erase =
+    [.error ⟨"UniqueOperationNamesRule", "Q", [2, 7]⟩] := by decide +kernel
+
+example : opNames (outer exEDoc) = ["Q", "Q"] ∧ ¬ Spec.uniqueOperationNames exEDoc ∧ Spec.uniqueOperationNames exDDoc :=
+  ⟨by decide +kernel,
+   fun h => absurd ((uniqueOperationNames_iff_spec tiTable exL exEDoc (by unfold ATree.uniqueIds; decide +kernel)).mpr h) (by decide +kernel),
+   (uniqueOperationNames_iff_spec tiTable exL exDDoc (by unfold ATree.uniqueIds; decide +kernel)).mp (by decide +kernel)⟩
+
+/-- C12-7 `rule_iff_spec`, UniqueFragmentNames (private state, SKIP at every definition).  On a document whose nodes
+are distinct objects, `validate([UniqueFragmentNamesRule])` reports nothing iff every fragment definition has a name
+and these names are pairwise distinct. -/
+theorem uniqueFragmentNames_iff_spec (tbl : TITable) (L : Lookups τ) (doc : ATree) (hu : doc.uniqueIds) :
+    validate tbl L none [(uniqueFragmentNames doc, RS.init)] doc.erase = [] ↔ Spec.uniqueFragmentNames doc :=
+  uniqueFragmentNames_iff tbl L doc hu
+
+-- `fragment A on T { f }  fragment A on T { g }`
+private def exFDoc : ATree :=
+  .node ⟨0, "document"⟩ "" "" [
+    .node ⟨1, "fragment_definition"⟩ "definitions" "" [
+      .node ⟨2, "name"⟩ "name" "A" [],
+      .node ⟨3, "selection_set"⟩ "selection_set" "" [.node ⟨4, "field"⟩ "selections" "" [.node ⟨5, "name"⟩ "name" "f" []]]],
+    .node ⟨6, "fragment_definition"⟩ "definitions" "" [
+      .node ⟨7, "name"⟩ "name" "A" [],
+      .node ⟨8, "selection_set"⟩ "selection_set" "" [.node ⟨9, "field"⟩ "selections" "" [.node ⟨10, "name"⟩ "name" "g" []]]]]
+
+example : validate tiTable exL none [(uniqueFragmentNames exFDoc, RS.init)] exFDoc.erase =
+    [.error ⟨"UniqueFragmentNamesRule", "A", [2, 7]⟩] := by decide +kernel
+
+example : ¬ Spec.uniqueFragmentNames exFDoc ∧ Spec.uniqueFragmentNames exCDoc :=
+  ⟨fun h => absurd ((uniqueFragmentNames_iff_spec tiTable exL exFDoc (by unfold ATree.uniqueIds; decide +kernel)).mpr h) (by decide +kernel),
+   (uniqueFragmentNames_iff_spec tiTable exL exCDoc exC_unique).mp (by decide +kernel)⟩
+
+/-- C12-7 (T1).  The modelled rules carry the class names of eleven members of `specified_rules` (the list
+regenerated from specified_rules.py), in the order of that list. -/
+theorem modelled_rules_are_specified (doc : ATree) :
+    ((modelled (τ := τ) doc).map (·.1)).isSublist specifiedRules = true ∧ ((modelled (τ := τ) doc).map (·.1)).length = 11 := by
+  simp only [modelled, List.map_cons, List.map_nil]
+  decide
+
+end Modelled
 
 /-! ## C12-6 `memo_pure` -/
 
